@@ -1,5 +1,39 @@
+"""C03 - two-collection search returns exactly the query/reference pairs within range."""
 from .. import AnalysisBroken
+from ._nn import get_nn, run_fga
+
+CLAIMED = True
+LEVEL = "other"
+TECHNIQUE = "index-space typing of reported positions and filter-guard acceptance analysis under mode partial evaluation; write-set (effect) analysis of lookup; loop-nest form of the breadth-first ball"
+TEXT = ("Decides for SymdelDB.lookup, LookupDB.lookup and symdel's delegation that: reported positions are typed (query position in the query "
+        "collection's index space first, reference position second); the reported value is the distance of exactly the elements at those positions; "
+        "the acceptance condition in default mode is 'Levenshtein <= max_edits' with no self-exclusion conjunct (a position comparison is legal only "
+        "under the pdist flag) and no other filter; lookup never writes to the database object. Candidate completeness rests on lemmas A.1 (shared "
+        "deletion variant) and A.3/A.4 (breadth-first ball), whose hypotheses are checked (C01/C12 rules) but which are proved on paper. Grade B.")
+NOTE = "Trusted: rapidfuzz Levenshtein exactness; DESIGN Appendix A.1, A.3, A.4 (paper lemmas); the idiom list of Appendix C."
 
 
 def run(r):
-    raise AnalysisBroken("rule set for C03 not implemented yet (fail-closed stub)")
+    rep = r.rep
+    rep.explanation = "Every triplet insertion site of the two lookup methods was typed and its acceptance condition compared with the specification for default mode."
+    rep.trust("rapidfuzz.distance.Levenshtein.distance is the exact Levenshtein distance", "DESIGN Appendix A.1 / A.3 / A.4 / A.5 (lemma table)")
+    run_fga(r, "C03", {"none"}, labels={"SymdelDB.lookup", "LookupDB.lookup"}, floor=4)
+
+
+from ..selftest import V  # noqa: E402
+
+N = "pyrepseq/nn.py"
+VARIANTS = [
+    V("D1-unconditional-self-filter", N, "if pdist_mode and x_index == y_index:", "if x_index == y_index:", rule="C03-FGA"),
+    V("D12-mcd-applied-in-default-mode", N, "if not is_custom or dist <= max_custom_distance:", "if dist <= max_custom_distance:", rule="C03-FGA"),
+    V("symdel-lookup-self-filter", N, "            for j in j_indices:\n                if is_custom and", "            for j in j_indices:\n                if i == j:\n                    continue\n                if is_custom and", rule="C03"),
+    V("lookup-swapped-spaces", N, "dist = custom_distance(seqs2[i], self.seqs[j])", "dist = custom_distance(seqs2[j], self.seqs[i])", rule="C03-IST"),
+    V("lookup-distance-of-self", N, "dist = custom_distance(seqs2[i], self.seqs[j])", "dist = custom_distance(seqs2[i], seqs2[i])", rule="C03-IST"),
+    V("lookup-strict-threshold", N, "                if dist > threshold:\n                    continue\n                ans.append((i, j, dist))", "                if dist >= threshold:\n                    continue\n                ans.append((i, j, dist))", rule="C03-FGA"),
+    V("lookup-reports-swapped-positions", N, "ans.append((i, j, dist))", "ans.append((j, i, dist))", rule="C03-IST"),
+    V("lookup-length-prefilter", N, "            for j in j_indices:\n                if is_custom and", "            for j in j_indices:\n                if len(seqs2[i]) != len(self.seqs[j]):\n                    continue\n                if is_custom and", rule="C03-FGA"),
+    V("silent-get-instead-of-membership", N, "                if comb not in self.variant_dict:\n                    continue\n                for j in self.variant_dict[comb]:\n                    j_indices.add(j)",
+      "                if comb in self.variant_dict:\n                    for j in self.variant_dict[comb]:\n                        j_indices.add(j)", expect="silent"),
+    V("silent-le-threshold", N, "                if dist > threshold:\n                    continue\n                ans.append((i, j, dist))", "                if dist <= threshold:\n                    ans.append((i, j, dist))", expect="silent"),
+    V("silent-rename", N, "        for x_index, seq in seqs2_loop:", "        for x_index, seq in seqs2_loop:  # query loop", expect="silent"),
+]
